@@ -177,13 +177,14 @@ func (c *subScn) step(st string) {
 			if err != nil {
 				return []interface{}{"r", err}
 			}
+			appGot(s, m)
 			b := bytesArr(m.Body)
 			hl := len(m.Header)
 			// the message is the application's now: modify it in place
 			for k := range m.Body {
 				m.Body[k] ^= 0x55
 			}
-			m.Free()
+			appFree(s, m)
 			return []interface{}{"r", "ok", "b", b, "hl", hl}
 		})
 	case "adv":
@@ -207,6 +208,7 @@ func (c *subScn) step(st string) {
 
 func runSub(t *testing.T, cfg subCfg) sim.Result {
 	return sim.Run(t, 10*time.Second, func(s *sim.S) {
+		defer withLedger(s.Rec)()
 		c := &subScn{s: s, cfg: cfg, pipes: map[string]*vt.Pipe{}}
 		s.Net.Decode = subDecode
 		c.proto = sub.NewProtocol()
